@@ -701,7 +701,7 @@ func TestC12(t *testing.T) {
 	r.Require("err_limited_conn", 1)
 	r.Require("samples_Limited", 200)
 	r.Require("samples_Connected", 200)
-	r.Require("relay_dials", 50)
+	r.Require("relay_dials", 15)
 	r.Require("conn_streams_refused_limited", 50)
 	r.Require("conn_streams_on_limited_allowed", 20)
 }
